@@ -19,7 +19,37 @@ GROUPS = {
         dict(file=SS, name="SimpleString::AtoI", coq="src_AtoI", calls={"isSpace": "leaf_isSpace {0}", "isDigit": "leaf_isDigit {0}"}),
     ],
 }
+BUF = [["buffer_", "ptr"]]
+SSM = {"getBuffer": {"field": ["buffer_", "ptr"]}, "asCharString": {"field": ["buffer_", "ptr"]},
+       "size": {"fn": "src_size", "obj": BUF}, "at": {"fn": "src_at", "obj": BUF}, "findFrom": {"fn": "src_findFrom", "obj": BUF},
+       "StrLen": {"fn": "src_StrLen"}, "StrCmp": {"fn": "src_StrCmp"}, "StrNCmp": {"fn": "src_StrNCmp"}, "StrStr": {"fn": "src_StrStr"},
+       "StrNCpy": {"fn": "src_StrNCpy", "writes": True},
+       "isControl": "leaf_isControl {0}", "isControlWithShortEscapeSequence": "leaf_isControlWithShortEscapeSequence {0}",
+       "ToLower": "leaf_ToLower {0}"}
+NPOS = {"npos": "18446744073709551615"}
+GROUPS["C13"] += [
+    dict(file=SS, name="SimpleString::size", coq="src_size", calls=SSM),
+    dict(file=SS, name="SimpleString::isEmpty", coq="src_isEmpty", calls=SSM),
+    dict(file=SS, name="SimpleString::at", coq="src_at", calls=SSM),
+    dict(file=SS, name="SimpleString::contains", coq="src_contains", calls=SSM),
+    dict(file=SS, name="SimpleString::startsWith", coq="src_startsWith", calls=SSM),
+    dict(file=SS, name="SimpleString::endsWith", coq="src_endsWith", calls=SSM),
+    dict(file=SS, name="SimpleString::count", coq="src_count", calls=SSM),
+    dict(file=SS, name="SimpleString::findFrom", coq="src_findFrom", calls=SSM, globals=NPOS),
+    dict(file=SS, name="SimpleString::find", coq="src_find", calls=SSM, globals=NPOS),
+    dict(file=SS, name="SimpleString::replace", signature="void (char, char)", coq="src_replaceChar", calls=SSM),
+    dict(file=SS, name="SimpleString::copyToBuffer", coq="src_copyToBuffer", calls=SSM),
+    dict(file=SS, name="SimpleString::getPrintableSize", coq="src_getPrintableSize", calls=SSM),
+    dict(file=SS, name="operator==", signature="bool (const SimpleString &, const SimpleString &)", coq="src_equal", calls=SSM),
+]
+MLD = "src/CppUTest/MemoryLeakDetector.cpp"
+GROUPS["C06"] = [
+    dict(file=MLD, name="MemoryLeakDetector::addMemoryCorruptionInformation", coq="src_addGuard", global_arrays=["GuardBytes"]),
+    dict(file=MLD, name="MemoryLeakDetector::validMemoryCorruptionInformation", coq="src_validGuard", global_arrays=["GuardBytes"]),
+]
 HEADERS = {
+    "C06": "From CppUVerif Require Import lib.CSem lib.CMem.\nLocal Open Scope Z_scope.\n"
+           "(* translated by tools/cxx2gal.py; the constant array GuardBytes is the pointer parameter global_GuardBytes *)\n",
     "C13": "From CppUVerif Require Import lib.CSem lib.CMem gen.Gen_LeafC13.\nLocal Open Scope Z_scope.\n"
            "(* translated by tools/cxx2gal.py from clang's AST of the functions named below: loops are Fixpoints on fuel, "
            "pointers are (block, offset), every load/store/pointer step is bounds-checked (Oob) *)\n",
